@@ -95,15 +95,33 @@ def run_input(text: str, projector, tag: str = '', keep_report: bool = True, wor
     return ctx
 
 
+class _Timeout(BaseException):
+    pass
+
+
+def _alarm(signum, frame):
+    raise _Timeout()
+
+
+JOB_TIMEOUT_S = int(os.environ.get('VERIF_JOB_TIMEOUT', '240'))
+
+
 def _job(args):
+    import signal
     text, projector_ref, tag = args
     modname, fn = projector_ref.split(':')
     projector = getattr(importlib.import_module(modname), fn)
+    signal.signal(signal.SIGALRM, _alarm)
+    signal.alarm(JOB_TIMEOUT_S)      # a generated input may send the simulator into a very long loop: treated as rejected
     try:
         ctx = run_input(text, projector, tag)
+    except _Timeout:
+        ctx = {'tag': tag, 'status': 'rejected', 'error': f'timeout after {JOB_TIMEOUT_S}s', 'stages': []}
     except BaseException as e:  # noqa: BLE001
         ctx = {'tag': tag, 'status': 'machinery', 'error': f'{type(e).__name__}: {e}', 'error_tb': traceback.format_exc()[-3000:],
                'stages': []}
+    finally:
+        signal.alarm(0)
     ctx['input'] = text
     return ctx
 
